@@ -223,7 +223,7 @@ func (_this *Session) defaultBuilderGeneratorForType(dstType reflect.Type) Build
 		case common.TypeNode:
 			return generateNodeBuilder
 		default:
-			return newStructBuilderGenerator(_this.GetBuilderGeneratorForType, dstType)
+			return newStructBuilderGenerator(_this.GetBuilderGeneratorForType, dstType, _this.config.Iterator.FieldNameStyle)
 		}
 	case reflect.Ptr:
 		switch dstType {
